@@ -58,10 +58,11 @@ Theorem write_error_refuted_threaded_last :
   recorded_healthy (ro_content (w_run r)) 7 = true /\ nth 7 (nth 0 (ro_parity (w_run r)) []) PNone = PJunk 8.
 Proof. vm_compute. repeat split. Qed.
 
-(* single-thread mode: never collected wherever it happens, exit 0 *)
-Theorem write_error_refuted_mono :
+(* single-thread mode (after the repair of F-C08-mono-writer-errors-lost the exit status is failing:
+   FaultProofs.write_error_exit_mono): the stripe is nevertheless recorded synced over the old parity block *)
+Theorem write_error_refuted_mono_recorded_synced :
   let r := wrun Mono 3 in
-  w_nfail r = 1 /\ run_failing (w_run r) = false /\ length (w_lost r) = 1 /\
+  w_nfail r = 1 /\ run_failing (w_run r) = true /\ length (w_lost r) = 0 /\
   recorded_healthy (ro_content (w_run r)) 3 = true /\ nth 3 (nth 0 (ro_parity (w_run r)) []) PNone = PJunk 4.
 Proof. vm_compute. repeat split. Qed.
 
